@@ -56,10 +56,17 @@ class Hub:
         self._busy = set()
         # held regions: closures passed to with_commit_lock
         self.held = {}   # closure body path -> (caller body, call bb)
-        for b, bb, c in self.cg.call_sites(lambda c: c == LOCK, within=self.graph):
+        runners = dict(semantic_anchors.lock_runners(F))
+        runners.setdefault(LOCK, 1)
+        self.lock_runners = runners
+        others = sorted(k for k in runners if k != LOCK and F.body(k) is not None)
+        self.lock_fn = LOCK if F.body(LOCK) is not None or len(others) != 1 else others[0]
+        for b, bb, c in self.cg.call_sites(lambda c: c in runners, within=self.graph):
             fl = flow_of(b)
             t = b.blocks[bb]['term']
-            for o in fl.origins(t['args'][1]):
+            if runners[c] >= len(t['args']):
+                continue
+            for o in fl.origins(t['args'][runners[c]]):
                 if o.kind == 'agg' and F.body(o.key) is not None:
                     self.held[o.key] = (b, bb)
 
